@@ -2,6 +2,7 @@ package prefixset
 
 import (
 	"bufio"
+	"errors"
 	"fmt"
 	"io"
 	"net/netip"
@@ -28,7 +29,13 @@ func (psc Config) LoadPrefixSet() (*bart.Lite, error) {
 	}
 	defer close()
 
-	return PrefixSetFromText(data)
+	s, err := PrefixSetFromText(data)
+	if err != nil {
+		// The error quotes the offending line, which points into the mapped file.
+		// Copy the message out before the file is unmapped.
+		return nil, errors.New(err.Error())
+	}
+	return s, nil
 }
 
 // PrefixSetFromText parses prefixes from the text and builds a prefix set.
